@@ -162,6 +162,7 @@ class ImageTransformer(SpatialTransformer):
         )
         self._sample = sampler.to(device)
         self._target_grid = target
+        self._same_domain = target.same_domain_as(transform.grid())
         self._flip_coords = bool(flip_coords)
         x = target.coords(align_corners=transform.align_corners(), flip=flip_coords, device=device)
         x = target.transform_points(x, axes=transform.axes(), to_grid=transform.grid())
@@ -206,7 +207,9 @@ class ImageTransformer(SpatialTransformer):
     ) -> Union[Tensor, Tuple[Tensor, Tensor], Dict[str, Union[Tensor, Grid]]]:
         r"""Sample batch of images at spatially transformed target grid points."""
         grid: Tensor = self.grid_coords
-        grid = self._transform(grid, grid=True)
+        # Only when target and transformation domain are the same, target grid points are the
+        # undeformed positions of a regular grid which covers the domain of the transformation
+        grid = self._transform(grid, grid=self._same_domain)
         if self._flip_coords:
             grid = grid.flip((-1,))
         return self._sample(grid, data, mask)
